@@ -421,6 +421,8 @@ def _random_decisions(fn):
                 res.append(C(txt(st["e"], sal).replace(" ", "")))
             elif st.get("k") == "If":
                 res.append("if(%s){%s}else{%s}" % (C(txt(st["c"], sal).replace(" ", "")), ";".join(eff(st.get("t"))), ";".join(eff(st.get("e")))))
+            elif st.get("k") == "Return" and st.get("e") is not None:
+                res.append("return " + C(txt(st["e"], sal).replace(" ", "")))
             else:
                 res.append(st.get("k"))
         return res
@@ -464,3 +466,55 @@ def ebpps_merge_decisions(facts):
             out.append(ob("ebpps.merge", key, fn["pat"], "violated", "a random decision of merge() differs from the reviewed one: `%s` -> %s / %s: the probabilities with which the two partial items are promoted / kept are exchanged or changed, so inclusion is no longer proportional to weight" % (diff[0][0][:140], diff[0][1], diff[0][2]), fn["qname"]))
         break
     return out
+
+
+VAROPT_DECISION_FNS = ("choose_delete_slot", "choose_weighted_delete_slot", "pick_random_slot_in_r", "update_heavy_r_eq1", "downsample_candidate_set")
+
+
+def varopt_decisions(facts):
+    """VarOpt's unbiasedness rests on a handful of random decisions whose probabilities are closed forms of the candidate weights
+    (keep the single M candidate with probability (num_cands - 1) * w_M / wt_cands, ..).  Every `if` of the var_opt_sketch member
+    functions whose condition draws a random number is compared - condition and what either arm does, canonicalised, parameters by
+    position, locals read through their initialisers - with the reviewed table spec/varopt_decisions.json."""
+    import json, os
+    from vlib.core import VERIF
+    from astu import canon_inl
+    fns = functions_by(facts, ["sampling"])
+    sp = json.load(open(os.path.join(VERIF, "spec", "varopt_decisions.json")))["decisions"]
+    out = []
+    got_all = varopt_decision_inventory(fns)
+    for name, want in sorted(sp.items()):
+        key = "var_opt_sketch::%s:random-decisions" % name
+        if name not in got_all:
+            out.append(ob("varopt.decisions", key, "", "unrecognised", "no random decision found in var_opt_sketch::%s (reviewed: %d): re-review spec/varopt_decisions.json" % (name, len(want)), ""))
+            continue
+        got, fn, opaque = got_all[name]
+        if sorted(map(json.dumps, got)) == sorted(map(json.dumps, [list(x) for x in want])):
+            out.append(ob("varopt.decisions", key, fn["pat"], "discharged", "%d random decision(s) with the reviewed probability and effects" % len(got), fn["qname"]))
+        elif opaque or len(got) != len(want):
+            out.append(ob("varopt.decisions", key, fn["pat"], "unrecognised", "the random decisions of %s cannot be related to the reviewed ones (%d found, %d reviewed): re-review spec/varopt_decisions.json" % (name, len(got), len(want)), fn["qname"]))
+        else:
+            diff = [g for g in got if g not in [list(x) for x in want]]
+            out.append(ob("varopt.decisions", key, fn["pat"], "violated", "a random decision of %s differs from the reviewed one: `%s` -> %s / %s: the probability with which a candidate is kept or evicted changed, so inclusion is no longer proportional to weight (the subset-sum estimates become biased)" % (name, diff[0][0][:160], diff[0][1], diff[0][2]), fn["qname"]))
+    return out
+
+
+def varopt_decision_inventory(fns):
+    res = {}
+    for pat, fn in sorted(fns.items()):
+        if fn.get("rect") != "datasketches::var_opt_sketch" or fn.get("body") is None:
+            continue
+        # parameters by position
+        f2 = fn
+        got, opaque = _random_decisions(f2)
+        if got and fn["name"] not in res:
+            penv = {p["n"]: "p%d" % i for i, p in enumerate(fn.get("params") or []) if p.get("n")}
+            import re as _re
+
+            def ren(t):
+                for n_, r_ in penv.items():
+                    t = _re.sub(r"(?<![A-Za-z0-9_.])%s(?![A-Za-z0-9_])" % _re.escape(n_), r_, t)
+                return t
+            got = [[ren(g[0]), [ren(x) for x in g[1]], [ren(x) for x in g[2]]] for g in got]
+            res[fn["name"]] = (got, fn, opaque)
+    return res
